@@ -1,7 +1,7 @@
 #!/bin/bash
 # seed_regress.sh [ids...] — applies every filed seeded change to /repo in turn, runs the quick check that is recorded
 # as catching it, undoes the change; prints one line per seed (expected: rc=1 for detected seeds).
-declare -A OVER=( [C02-a]=C03 [C02-b]=C03 [C20-b]=C13 )
+declare -A OVER=( [C02-a]=C03 [C02-b]=C03 [C20-b]=C13 [C08-c]=C03 )
 cd /verif/seeded
 for d in ${@:-$(ls)}; do
   st=$(python3 -c "import json;print(json.load(open('$d/meta.json'))['check_result']['status'])")
